@@ -149,10 +149,14 @@ def cls_impl(c):
     return src, docstring, body, got
 
 
+PROP_ITEMS = []     # property-level failures found by the text ties (per worker process; drained by worker())
+
+
 def cls_compare(cases):
     """Model/ClassFmt.v against cdd.class_.emit / cdd.class_.parse: the docstring the emitter writes, and what the parser returns for the
     emitted class (its docstring + annotated assignments).  Defaults are compared as Python values (the model carries the source token)."""
     bad, n = [], 0
+    prop = PROP_ITEMS
     impl = [guarded(cls_impl, c, 30) for c in cases]
     ok = [(c, v) for c, (st, v) in zip(cases, impl) if st == "ok"]
     for c, (st, v) in zip(cases, impl):
@@ -160,14 +164,24 @@ def cls_compare(cases):
             bad.append({"input": c, "impl": v})
     m_doc = call_many("class_docstring", [[c["doc"], [[n_, [t, d, None]] for n_, (t, d, _x) in c["params"]]] for c, _ in ok])
     m_parse = call_many("parse_class", [[v[1], v[2]] for _, v in ok])
-    for (c, (src, docstring, body, got)), md, mp in zip(ok, m_doc, m_parse):
+    m_body = call_many("class_body", [[c["doc"], [[n_, [t, d, df]] for n_, (t, d, df) in c["params"]]] for c, _ in ok])
+    val = lambda x: None if x is None else repr(ast.literal_eval(x))
+    for (c, (src, docstring, body, got)), md, mp, mb in zip(ok, m_doc, m_parse, m_body):
         n += 1
         if (docstring or "") != md:
             bad.append({"input": c, "what": "class docstring", "impl": docstring, "model": md})
             continue
+        # the annotated assignments of the body: one per typed attribute, with its value
+        if [[a, t, val(x)] for a, t, x in body] != [[a, t, val(x)] for a, t, x in mb]:
+            bad.append({"input": c, "what": "class body (annotated assignments)", "source": src, "impl": body, "model": mb})
         want = [mp[0], [[k, [t, d, ("absent" if df is None else repr(ast.literal_eval(df)))]] for k, (t, d, df) in mp[1]]]
         if [got[0] or "", got[1]] != want:
             bad.append({"input": c, "what": "parse of the emitted class", "source": src, "impl": got, "model": want})
+        # the property itself on this domain (theorem C02_class_text_roundtrip): names, order, types, descriptions, defaults come back
+        if not c["outside"]:
+            orig = [c["doc"], [[n_, [t, d, ("absent" if df is None else repr(ast.literal_eval(df)))]] for n_, (t, d, df) in c["params"]]]
+            if [got[0] or "", got[1]] != orig:
+                prop.append(("C02/%s-text/roundtrip" % c.get("fmt", "class"), {"source": src, "parsed_back": got, "emitted_from": orig}, c))
     return n, bad
 
 
@@ -231,6 +245,10 @@ def fn_compare(cases):
             want = [p_[0], [[k, [t, d, ("absent" if df is None else ("NONESTR" if df == NoneStr else repr(ast.literal_eval(df))))]] for k, (t, d, df) in p_[1]]]
             if [got[0] or "", got[1]] != want:
                 bad.append({"input": c, "type_annotations": ta, "what": "parse of the emitted function", "source": src, "impl": got, "model": want})
+            if not c["outside"]:
+                orig = [c["doc"], [[n_, [t, d, ("NONESTR" if df is None or df == "None" else repr(ast.literal_eval(df)))]] for n_, (t, d, df) in c["params"]]]
+                if [got[0] or "", got[1]] != orig:
+                    PROP_ITEMS.append(("C02/function-text%s/roundtrip" % ("" if ta else "-nota"), {"source": src, "parsed_back": got, "emitted_from": orig}, c))
     return n, bad
 
 
@@ -254,6 +272,8 @@ def worker(batch):
         n_fn, fn_bad = fn_compare(clss)
         out["classes"] += n_fn
         out["cls_bad"] += fn_bad
+        out["items"] += PROP_ITEMS[:6]
+        del PROP_ITEMS[:]
     sigs = [p for k, p in batch if k == "sig"]
     if sigs:
         impl = [guarded(sig_impl, c, 20) for c in sigs]
